@@ -71,7 +71,7 @@ def num_grad(f, x, lo=None, hi=None):
     return g, err
 
 
-def oracle_value(ctx, key, desc, logd, grad, x, lo=None, hi=None, tol=ORTOL):
+def oracle_value(ctx, key, desc, logd, grad, x, lo=None, hi=None, tol=ORTOL, in_support=False):
     """property oracle on the implementation alone: returned vector == derivative of its own logd.
     returns True if it held."""
     with quiet():
@@ -81,6 +81,10 @@ def oracle_value(ctx, key, desc, logd, grad, x, lo=None, hi=None, tol=ORTOL):
             ctx.note(f"logd raised at {desc}: {e!r}"[:200]); return True
     g = np.asarray(grad, dtype=float)
     if not math.isfinite(l0):
+        if in_support:
+            # x is in the support by construction: a non-finite logd here is floating-point underflow
+            # (Lognormal.logpdf = log(pdf)); nothing to differentiate numerically
+            ctx.note(f"logd not finite at a support point (underflow), oracle skipped: {key}"); return True
         if np.any(np.isfinite(g)):
             ctx.fail(key + ":finite-outside-support", desc, "non-finite gradient where logd is not finite", g.tolist(),
                      "a finite gradient is returned outside the support")
@@ -750,6 +754,14 @@ def run(ctx):
             ctx.note(f"posterior constructor refused {desc}: {e!r}"[:160]); continue
         st, exc, val = classify(lambda: target.gradient(xs), n)
         bump(f"lik:{mk}:{st}")
+        if st == "nan":
+            with quiet():
+                try:
+                    l0 = float(target.logd(xs))
+                except Exception:  # noqa
+                    l0 = 0.0
+            if not math.isfinite(l0):
+                ctx.note(f"likelihood logd underflows at {desc}; case skipped"); continue
         # --- expected status from the guards (model side: decision rules of Model._check_gradient_can_be_computed + Gaussian._gradient)
         has_grad = mk not in ("no-gradient", "pde-none")
         dom_ok = GKIND[dg] in ("id", "nonid-grad")
@@ -767,7 +779,7 @@ def run(ctx):
         if exp is not None and st != exp:
             ctx.disagree(key + ":status", desc, exp, f"{st}({exc})", "status differs from the guards' decision")
             if st == "value":
-                oracle_value(ctx, key + ":status", desc, target.logd, val, xs, tol=(2e-4 if fd else ORTOL))
+                oracle_value(ctx, key + ":status", desc, target.logd, val, xs, tol=(2e-4 if fd else ORTOL), in_support=True)
             elif st in ("none", "not-vector"):
                 ctx.fail(key + ":status", desc, "vector or raise", st, "neither a gradient vector nor a refusal")
             continue
@@ -796,7 +808,7 @@ def run(ctx):
             Gm = "_" if GKIND[dg] == "id" else qm(np.diag(2 * xs))
             pending.append((f"lik {qv(dev)} {qm(Jz)} {qm(Puse)} {Gm}", key, desc, parts, xs, val))
         lo_b = [0.0] * n if dg.startswith("Mapped") else None
-        oracle_value(ctx, key, desc, target.logd, val, xs, lo_b, None, tol=(2e-4 if fd else ORTOL))
+        oracle_value(ctx, key, desc, target.logd, val, xs, lo_b, None, tol=(2e-4 if fd else ORTOL), in_support=True)
     louts = ctx.lean.drive([p[0] for p in pending])
     for (line, key, desc, parts, xs, val), lo in zip(pending, louts):
         mg = np.array(decv(lo.split()[1]))
